@@ -13,7 +13,7 @@ use uom::si::length::meter;
 pub fn def() -> PropDef {
     PropDef {
         id: "C16",
-        rule: "inputs: helices with centre within +-3 m, radius 0.03-5 m, any phase, pitch 0 / +-subnormal / +-1e-17..1e2 m (one class per decade, equal weight), and points (a) anywhere in the drift volume, (b) within 1 cm of the helix with the z offset scaled by min(|h|,1) so that tiny pitches still give interior parameters, (c) bit-exactly on the helix axis (axis on the beam line or on the x axis), up to 3 pitches from z0, (c2) on the radial line through the helix point of parameter s (s = 0 and +-pi: along and opposite to phi0), on the curve or up to 1 cm off it, (d) sweeps of 4-40 neighbouring points around one helix asked one after the other on one thread (eccentricity 0.1-30; through the half-plane where the root of Kepler's equation changes sign); direct call of the closest-point routine through the hook with the callers' tolerance and iteration limit; plus t_inner / t_outer of fitted tracks against the cluster's innermost / outermost point (hook-free on clustered helices; and one group of every point family fitted through the Cluster hook, in given or reversed order, optionally with a stray hit at the inner or outer end shifted by up to 150 mrad and 3 cm; only point sets that are connected under the 3 cm linkage, as every Cluster of the library is), and the per-track parameters of a primary vertex against the vertex position (fitted tracks; hook-built sets of 2-6 tracks through or within 2 cm of a common point 0-30 cm off the beam axis, each circle also passing within 7 cm of the axis; the track sets of C14); oracle: t is not NaN and in [-pi, pi]; if strictly inside, dist(point, at(t)) <= min over s in [-pi, pi] of dist(point, at(s)) + 1e-9 m, the minimum found by a 20001-point grid with golden-section refinement around the best cells and both end points (at = the library's Track::at, so only the choice of t is judged; both distances are exact only to a few ulps of the helix's largest parameter, so 16 eps x max(that size, the two distances) is added to the 1e-9 m - 3.6e-14 m for a 10 m helix, decisive only for the 1e14 m helices that fit straight chords and for vertex fits of flat tracks that end 4e9 m away); non-trivial = t strictly inside (-pi, pi); distinct by (pitch decade, case hash)",
+        rule: "inputs: helices with centre within +-3 m, radius 0.03-5 m, any phase (mostly within +-pi, one in eight up to +-50 rad: the type does not normalise it), pitch 0 / +-subnormal / +-1e-17..1e2 m (one class per decade, equal weight), and points (a) anywhere in the drift volume, (b) within 1 cm of the helix with the z offset scaled by min(|h|,1) so that tiny pitches still give interior parameters, (c) bit-exactly on the helix axis (axis on the beam line or on the x axis), up to 3 pitches from z0, (c2) on the radial line through the helix point of parameter s (s = 0 and +-pi: along and opposite to phi0), on the curve or up to 1 cm off it, (d) sweeps of 4-40 neighbouring points around one helix asked one after the other on one thread (eccentricity 0.1-30; through the half-plane where the root of Kepler's equation changes sign); direct call of the closest-point routine through the hook with the callers' tolerance and iteration limit; plus t_inner / t_outer of fitted tracks against the cluster's innermost / outermost point (hook-free on clustered helices; and one group of every point family fitted through the Cluster hook, in given or reversed order, optionally with a stray hit at the inner or outer end shifted by up to 150 mrad and 3 cm; only point sets that are connected under the 3 cm linkage, as every Cluster of the library is), and the per-track parameters of a primary vertex against the vertex position (fitted tracks; hook-built sets of 2-6 tracks through or within 2 cm of a common point 0-30 cm off the beam axis, each circle also passing within 7 cm of the axis; the track sets of C14); oracle: t is not NaN and in [-pi, pi]; if strictly inside, dist(point, at(t)) <= min over s in [-pi, pi] of dist(point, at(s)) + 1e-9 m, the minimum found by a 20001-point grid with golden-section refinement around the best cells and both end points (at = the library's Track::at, so only the choice of t is judged; both distances are exact only to a few ulps of the helix's largest parameter, so 16 eps x max(that size, the two distances) is added to the 1e-9 m - 3.6e-14 m for a 10 m helix, decisive only for the 1e14 m helices that fit straight chords and for vertex fits of flat tracks that end 4e9 m away); non-trivial = t strictly inside (-pi, pi); distinct by (pitch decade, case hash)",
         assumptions: &["closest_t is reached through reconstruction::verif_hooks::closest_t (same tolerance f64::EPSILON and 20 iterations as every caller)"],
         run,
         replay,
